@@ -2,6 +2,8 @@ import HpxVerif.Props.C02
 import HpxVerif.Lemmas.HashReal3
 import HpxVerif.Lemmas.FrontendReal
 
+set_option autoImplicit false   -- an unknown identifier in a statement is an error, never a new variable
+
 /-!
 # C01 — NESTED hash is total, in range, and returns a cell that contains the point
 
